@@ -437,7 +437,7 @@ static void run_case(ccase *c, vf_rng *r)
 static size_t len_max(void) { return vf_thorough ? 770 : 520; }
 static unsigned len_variants(void) { return vf_thorough ? 48 : 12; }
 static uint64_t n_enum(void) { return (uint64_t) RC_NFMT * (len_max() + 1) * len_variants(); }
-static uint64_t n_rand(void) { return vf_thorough ? 2000000 : 40000; }
+static uint64_t n_rand(void) { return vf_thorough ? 2000000 : 80000; }
 
 uint64_t vf_cases(void) { return n_enum() + n_rand(); }
 
